@@ -245,7 +245,7 @@ EXTRA = {
  'C12': " After every API call the calling thread must not own the write lock; forced writes that raise are part of the workload; after an immediate disconnect the same object reconnects and its first frames must be handshake and login start with no stale payload. Back-pressure engine: small socket buffers, a server that stalls, frames up to 400 KB from 1-3 threads (blocked sends are counted). Flushing disconnects with more than 300 packets queued and disconnects issued from an outgoing listener while others keep writing. Half of the stress runs also contain a server burst whose answers the networking thread queues itself (order judged); bulk queues up to 2600 packets.",
  'C13': " A second registration phase in mid-session (sentinel frames delimit the phases) and concurrent registration from two threads are included. Outgoing listeners that themselves write (nested dispatch) and, from protocol 755, the specialised combat-event subclasses under a superclass filter. Packets with empty collections, accounting of dispatched vs sent packets per class, an early listener that disconnects without ignoring. The same packet object written three times; the server kicks (packets + disconnect + close) while a client write is failing - everything received is still dispatched.",
  'C14': " Final handler modes include a reconnecting one; a delay-injection scenario has another thread inside connect() while the failing thread decides on its teardown. Two more origins: an OSError-family fault from a listener during the negotiation status phase, and an outgoing-listener fault while the server's disconnect packet is already readable. Handler behaviours include reconnect-and-raise and disconnect; faults with packets still queued and a guard listener; the exception that escapes the thread must be the routed one. Handlers return None/False/True/0/''; a final handler that delegates the reconnect to a supervisor thread and waits (a dead-lock is proven by the owner of the write lock). Filters spelled as tuples/nested tuples; a listener that disconnects and then fails with a transport-flavoured exception type.",
- 'C15': " Crash points include 'closes on accept'; a plain status() after a negotiation that ended in its status phase (reactor construction slowed down) and the automatic fallback session (must be an ordinary session) are judged too. Scenarios also cover a default version outside a multi-element allowed set (a looping client is a violation) and status() with latency measurement cut after the ping. Resets at frame boundaries also in quick; a thread that keeps running at full CPU after the peer has gone is a violation (per-thread CPU time); login connect refused after a complete status reply. Case-to-shard assignment is by hash of the case. Frames of 300, 20000 and 70000 bytes (cuts inside 2- and 3-byte length prefixes and inside a body beyond 64 KiB, sampled offsets).",
+ 'C15': " Crash points include 'closes on accept'; a plain status() after a negotiation that ended in its status phase (reactor construction slowed down) and the automatic fallback session (must be an ordinary session) are judged too. Scenarios also cover a default version outside a multi-element allowed set (a looping client is a violation) and status() with latency measurement cut after the ping. Resets at frame boundaries also in quick; a thread that keeps running at full CPU after the peer has gone is a violation (per-thread CPU time); login connect refused after a complete status reply. Case-to-shard assignment is by hash of the case. Frames of 300, 20000 and 70000 bytes (cuts inside 2- and 3-byte length prefixes and inside a body beyond 64 KiB, sampled offsets). Directed: a half-open peer that no longer reads while a backlog is queued; a forced write inside a listener that is the first to notice the server's close.",
  'C16': " Deterministic delay-injection scenarios: hand-over gap, check-vs-lock, stale read (LINE hook at the read statement), cancel-reconnect inside a listener; every history ends with a reuse probe. Histories include disconnects of a thread blocked inside a frame from a silent server, and the same action pairs after sessions that switched on encryption. Actions also cover disconnect() during an unanswered version negotiation (with a pause injected between socket shutdown and stream close) and a listener that reconnects and lingers 3-4 s. connect() from the latency callback of status(); an early keep-alive listener that reconnects without IgnorePacket (no reply of the old session may reach the new one). An exit callback that reconnects and lingers; descriptors and networking threads left behind by the histories are accounted.",
  'C18': " End to end: histories of accepted/rejected/dropped encrypted logins on one Connection object; every secret recovered by the key holder must be new and the accepted sessions must work. The e2e sessions include a slow listener on the encryption request (encrypted bytes already waiting in the same read batch) and a consumer that takes part of the incoming stream through connection.socket.recv. Secrets must stay fresh when the application re-seeds `random`; concurrent hand-overs to servers with different keys under yield injection. A plugin request in the same segment as the encryption request (answer in the clear before, or encrypted after, the response); a late outgoing listener raising IgnorePacket on the response. Zero-length reads inside partitions; an exception from a wrapper call is a verdict.",
  'C19': " Error replies include bodies and fields full of str.format / % metacharacters. 24 further 4xx/5xx status codes; bodies that are not valid UTF-8; the error type's constructor.",
